@@ -57,8 +57,24 @@ def entry_objects(lm: ListenerModel, r: Row) -> List[Tuple[str, Dict[str, Any]]]
     return out
 
 
+def all_push_effects(o: Outcome):
+    """push effects including those inside loop summaries."""
+    def walk(effects):
+        for e in effects:
+            if e[0] == "push":
+                yield e
+            elif e[0] == "loop":
+                lp = o.state.loops.get(e[1])
+                if lp:
+                    for oc in lp["outcomes"]:
+                        yield from walk(oc["effects"])
+            elif e[0] == "inloop":
+                yield from walk([e[2]])
+    yield from walk(o.effects)
+
+
 def good_rows(lm: ListenerModel, ev: str, k: str) -> List[Row]:
-    return [r for r in lm.rows(ev, k) if not r.error and "exc" not in r.val and "loopexit" not in r.val]
+    return [r for r in lm.rows(ev, k) if not r.error and "exc" not in r.val]
 
 
 def _same(a, b) -> bool:
@@ -103,6 +119,30 @@ def rule_doc_storage(rep: Report, repo: Repo, rule: str) -> None:
                 rep.check(got == DOC, rule, WHERE + ".process_" + k, f"{cls}.doc = {pretty(got)}"[:100],
                           f"the entry's documentation is `{pretty(got)}` instead of the cleaned doccomment text: the doc text is "
                           f"lost, altered or belongs to something else", witness=f"#[[[\\n# text\\n#]]\\n{k}(...)")
+    # every object that carries the doc text is attached to the entry list or to the innermost open class
+    for k in lm.kinds():
+        if k in ("endfunction", "endmacro", "cpp_end_class", "cmake_parse_arguments"):
+            continue
+        for r in good_rows(lm, "DOC", k):
+            st = r.outcome.state
+            nf = nf_for(lm, r)
+            attached = set()
+            for e in r.outcome.effects:
+                if e[0] == "push" and e[2][0] == "ref":
+                    ok_t = e[1] == lm.entries or (e[1][0] == "attr" and e[1][1] == ("top", lm.clsstack))
+                    attached.add((e[2], ok_t, show(e[1])[:60]))
+            for e in all_push_effects(r.outcome):
+                if e[2][0] == "ref" and (e[2], True, show(e[1])[:60]) not in attached and (e[2], False, show(e[1])[:60]) not in attached:
+                    attached.add((e[2], False, "loop: " + show(e[1])[:50]))
+            for n_, ob in st.heap.items():
+                if ob.get("kind") == "new" and repo.has_class(ob["cls"]) and repo.is_subclass(ob["cls"], "DocumentationType") \
+                        and nf.nf(ob["fields"].get("doc", NONE)) == DOC:
+                    tg = [a for a in attached if a[0] == ("ref", n_)]
+                    if tg and not any(a[1] for a in tg):
+                        rep.bad(rule, WHERE + ".process_" + k, f"DOC {k}: {ob['cls']} attached to {tg[0][2]}",
+                                f"the entry that carries the doc text of a {k}() is attached through `{tg[0][2]}`, not to the entry list or "
+                                f"the innermost open class: the text is attributed to another item, or dropped when the lookup fails",
+                                witness="cpp_class(Greeter) ... cpp_member(greet greeter str)  (class spelled differently)")
     # a documented command that the protocol says is shown must actually store its doc text somewhere
     from .protocol import expected, row_case
     for k in lm.kinds():
@@ -611,3 +651,26 @@ def rule_generic_binding(rep: Report, repo: Repo, rule: str) -> None:
                       why + ": the entry does not show the arguments as written and in order",
                       witness="target_sources(mylib\n  PRIVATE src/a.cpp\n  PUBLIC include/mylib.h)")
     rep.floor(rule, 2, "generic bindings")
+
+
+def rule_module_doc_verbatim(rep: Report, repo: Repo, rule: str) -> None:
+    """The body of a module doccomment reaches the module entry line for line."""
+    rep.rule(rule, "the module entry's doc is the cleaned module doccomment without its first line, re-joined with '\\n': no "
+                   "per-line strip / filter / re-indentation")
+    lm = model(repo)
+    n = 0
+    for r in lm.rows("MODULE", "-"):
+        for cls, f in entry_objects(lm, r):
+            d = f["doc"]
+            n += 1
+            ok = False
+            if d[0] == "call" and d[1] == ("attr", const("\n"), "join") and len(d[2]) == 1:
+                x = d[2][0]
+                if x[0] == "slice" and x[2] == const(1) and x[3] == NONE and x[4] == NONE:
+                    base = x[1]
+                    ok = base[0] == "call" and base[1][0] == "attr" and base[1][2] == "split" and base[2] == (const("\n"),) and \
+                        "clean_doc_lines" in show(base[1][1]) and "Module_docstring().getText()" in show(base[1][1])
+            rep.check(ok, rule, WHERE + ".enterDocumented_module", f"module doc = {show(d)[:110]}",
+                      "the body of the module doccomment is altered line by line (strip, filter, re-indent): relative indentation of "
+                      "nested reST constructs is lost", witness="#[[[ @module m\n# .. note::\n#    body\n#]]")
+    rep.floor(rule, 1, "module doc binding")
